@@ -730,10 +730,12 @@ def mks(name, ver, prios, H, div, cap, items, **kw):
 
 def simple_configs(tier, pid=None):
     return simple_configs_base(tier) + ([
-        # fewer handlers than inputs (v1 accepts it; v2 New refuses): the configured quantity is still the bound (seeded change C01-f).
-        # Only in C01: with fewer handlers than inputs some priority has a zero share, and what v1 does then is the known finding F4
-        # (C06), which must not be reported again by the checks of other properties
-        mks("simple1few", 1, [3, 2, 1], 2, "fair", 1, 4, stop=True, graceful=True)] if pid == "C01" else [])
+        # fewer handlers than inputs (v1 accepts it; v2 New refuses): the configured quantity is still the bound (seeded change C01-f) and
+        # a priority with a ZERO strategic share is still an input that must be closed and emptied before a graceful end (C02-d).
+        # Fair, {3,2,1}, H=2 on purpose: the zero-share priority is served from the unused remainder whenever the others are idle
+        # (it is alone in the 'useful' list of recalcTactic), so the known finding F4 (Rate, H=1: a zero-share priority alone in having
+        # data is never served) is not reproduced here. Not in C16/C19 (nothing to gain there).
+        mks("simple1few", 1, [3, 2, 1], 2, "fair", 1, 4, stop=True, graceful=True)] if pid in ("C01", "C02", "C07") else [])
 
 
 def simple_configs_base(tier):
